@@ -71,7 +71,19 @@ type wres struct {
 	Rebuilds  int
 	FlashSeen int
 	WallS     float64
+	Truncated bool // the internal deadline ended this worker early
 }
+
+// deadline is handed down by the master (C15_DEADLINE, unix nanoseconds); zero = none.
+func deadline() time.Time {
+	n, _ := strconv.ParseInt(os.Getenv("C15_DEADLINE"), 10, 64)
+	if n == 0 {
+		return time.Time{}
+	}
+	return time.Unix(0, n)
+}
+
+func expired(dl time.Time) bool { return !dl.IsZero() && time.Now().After(dl) }
 
 func (r *wres) addViol(v *vrec) {
 	if o, ok := r.Viol[v.Key]; ok {
@@ -88,12 +100,13 @@ func (r *wres) addViol(v *vrec) {
 func witnessOf(d *rpcDef, st string, sh shape, variant string, extra map[string]any) map[string]any {
 	f := map[string]any{}
 	base := d.sch.baseTok()
+	tok := d.sch.toks(sh)
 	for i, fl := range d.sch.fields {
-		if sh.tok[i] == "-" {
+		if tok[i] == "-" {
 			continue
 		}
-		if sh.tok[i] != base[i] || len(d.sch.fields) <= 6 {
-			f[fl.name] = sh.tok[i]
+		if tok[i] != base[i] || len(d.sch.fields) <= 6 {
+			f[fl.name] = tok[i]
 		}
 	}
 	w := map[string]any{"rpc": d.name, "state": st, "variant": variant, "fields_differing_from_valid_base": f, "enumerated_by": sh.origin}
@@ -124,9 +137,16 @@ func workerMain(shard, n int, only string) *wres {
 		limit = 400_000
 	}
 	global := 0
+	sinceGC := 0
+	dl := deadline()
 	for _, d := range rpcTable(thorough) {
 		if only != "" && only != d.name {
 			continue
+		}
+		if os.Getenv("C15_MEM") != "" {
+			var ms runtime.MemStats
+			runtime.ReadMemStats(&ms)
+			fmt.Fprintf(os.Stderr, "MEM before %s: heap=%dMB sys=%dMB objects=%d goroutines=%d runs=%d\n", d.name, ms.HeapAlloc>>20, ms.Sys>>20, ms.HeapObjects, runtime.NumGoroutine(), res.Runs)
 		}
 		shapes, rule := d.sch.enumerate(limit)
 		st := &rpcStat{Enumerated: len(shapes), Rule: rule}
@@ -146,6 +166,11 @@ func workerMain(shard, n int, only string) *wres {
 			i := 0
 			single, singleUntil := false, 0 // after a goroutine panic the chunk is re-run one call per execution
 			for i < len(mine) {
+				if expired(dl) {
+					res.Truncated = true
+					res.WallS = time.Since(start).Seconds()
+					return res
+				}
 				from := i
 				tmp := &wres{Stats: map[string]*rpcStat{d.name: {}}, Viol: map[string]*vrec{}}
 				var lastSh shape
@@ -201,7 +226,7 @@ func workerMain(shard, n int, only string) *wres {
 							if l := tokOf(d, sh, "Gossipers"); (l == "[nil]" || l == "[g,nil]") && strings.HasSuffix(pan.frame, "verifyGossipers") && pan.class == "nil-pointer" {
 								note = " (a nil list element: reachable for in-process callers only - protobuf decoding never yields nil elements of a repeated field)"
 							}
-							tmp.addViol(&vrec{Key: key, Predicate: "C15.no-panic", Dev: sh.dev, Idx: it.sh, Count: 1,
+							tmp.addViol(&vrec{Key: key, Predicate: "C15.no-panic", Dev: int(sh.dev), Idx: it.sh, Count: 1,
 								What:    fmt.Sprintf("%s panicked (%s) in %s on a %s request; signature check passed before: %v%s", d.name, pan.value, pan.frame, variant, passed, note),
 								Witness: witnessOf(d, state, sh, variant, map[string]any{"panic": pan.value, "frames": pan.frames, "signature_check_passed": passed})})
 							tmp.sample(d, state, sh, variant, "PANIC "+pan.class+" in "+pan.frame)
@@ -238,7 +263,7 @@ func workerMain(shard, n int, only string) *wres {
 								ts.OK++
 							}
 							what := strings.Join(df, "+")
-							tmp.addViol(&vrec{Key: fmt.Sprintf("C15.state-changed/%s/%s", d.name, what), Predicate: "C15.rejected-leaves-state", Dev: sh.dev, Idx: it.sh, Count: 1,
+							tmp.addViol(&vrec{Key: fmt.Sprintf("C15.state-changed/%s/%s", d.name, what), Predicate: "C15.rejected-leaves-state", Dev: int(sh.dev), Idx: it.sh, Count: 1,
 								What:    fmt.Sprintf("%s refused a %s request (%v) but changed the node's %s", d.name, variant, err, what),
 								Witness: witnessOf(d, state, sh, variant, map[string]any{"error": fmt.Sprint(err), "changed": df})})
 							tmp.sample(d, state, sh, variant, "refused but changed "+what)
@@ -263,6 +288,17 @@ func workerMain(shard, n int, only string) *wres {
 					}
 				})
 				res.Runs++
+				// The process-wide nodes pin ~23 GB of (mostly untouched) cache and badger arenas, so the pacer would let
+				// garbage grow by another 23 GB before collecting: collect explicitly every few thousand calls.
+				sinceGC += i - from
+				if sinceGC >= 6000 {
+					t0 := time.Now()
+					runtime.GC()
+					if os.Getenv("C15_MEM") != "" {
+						fmt.Fprintln(os.Stderr, "MEM gc took", time.Since(t0))
+					}
+					sinceGC = 0
+				}
 				bad := ""
 				switch {
 				case r.HorizonHit:
@@ -305,7 +341,7 @@ func workerMain(shard, n int, only string) *wres {
 							}
 						}
 						key := fmt.Sprintf("C15.panic/%s/%s@%s", d.name, pr.class, pr.frame)
-						tmp.addViol(&vrec{Key: key, Predicate: "C15.no-panic", Dev: lastSh.dev, Idx: mine[from].sh, Count: 1,
+						tmp.addViol(&vrec{Key: key, Predicate: "C15.no-panic", Dev: int(lastSh.dev), Idx: mine[from].sh, Count: 1,
 							What:    fmt.Sprintf("a goroutine spawned by %s (task %s) panicked (%s) in %s on a %s request", d.name, p.Task, pr.value, pr.frame, lastVar),
 							Witness: witnessOf(d, state, lastSh, lastVar, map[string]any{"panic": pr.value, "frames": pr.frames, "task": p.Task})})
 					} else {
@@ -321,7 +357,7 @@ func workerMain(shard, n int, only string) *wres {
 								where = append(where, b.Task+" blocked in "+b.Op+" "+b.Obj+" at "+b.Where)
 							}
 						}
-						tmp.addViol(&vrec{Key: fmt.Sprintf("C15.blocked/%s", d.name), Predicate: "C15.returns", Dev: lastSh.dev, Idx: mine[from].sh, Count: 1,
+						tmp.addViol(&vrec{Key: fmt.Sprintf("C15.blocked/%s", d.name), Predicate: "C15.returns", Dev: int(lastSh.dev), Idx: mine[from].sh, Count: 1,
 							What:    fmt.Sprintf("%s never returned on a %s request: %s", d.name, lastVar, strings.Join(where, "; ")),
 							Witness: witnessOf(d, state, lastSh, lastVar, map[string]any{"blocked": where})})
 					}
@@ -358,7 +394,7 @@ func workerMain(shard, n int, only string) *wres {
 
 func tokOf(d *rpcDef, sh shape, name string) string {
 	if i, ok := d.sch.idx[name]; ok {
-		return sh.tok[i]
+		return d.sch.tokAt(sh, i)
 	}
 	return ""
 }
@@ -406,9 +442,9 @@ func (r *wres) keepSample(s map[string]any) {
 // ---------------------------------------------------------------- master
 
 // runWorker runs one worker process and returns the result lines it printed (controlled part, updateDag part).
-func runWorker(self string, args []string, want int) []*wres {
+func runWorker(self string, args []string, want int, dl time.Time) []*wres {
 	cmd := exec.Command(self, args...)
-	cmd.Env = append(os.Environ(), "GOMAXPROCS=1")
+	cmd.Env = append(os.Environ(), "GOMAXPROCS=1", "C15_DEADLINE="+strconv.FormatInt(dl.UnixNano(), 10))
 	var stderr bytes.Buffer
 	cmd.Stderr = &stderr
 	var out bytes.Buffer
@@ -490,6 +526,7 @@ func main() {
 		fmt.Fprintln(os.Stderr, "C15:", err)
 		os.Exit(2)
 	}
+	dl := common.Deadline(140*time.Second, 21*time.Minute) // internal budget: the run then ends with exhaustive=false
 	var results []*wres
 	var mu sync.Mutex
 	var wg sync.WaitGroup
@@ -504,7 +541,7 @@ func main() {
 				wa = append(wa, *only)
 				want = 1
 			}
-			rs := runWorker(self, wa, want)
+			rs := runWorker(self, wa, want, dl)
 			mu.Lock()
 			defer mu.Unlock()
 			for _, r := range rs {
@@ -519,7 +556,7 @@ func main() {
 	stats := map[string]*rpcStat{}
 	viol := map[string]*vrec{}
 	merged := &wres{Viol: viol}
-	runs, rebuilds, flash := 0, 0, 0
+	runs, rebuilds, flash, truncated := 0, 0, 0, 0
 	var maxWall float64
 	wallBy := map[int]float64{}
 	for _, r := range results {
@@ -527,6 +564,9 @@ func main() {
 			fmt.Fprintf(os.Stderr, "C15: worker %d: %s\n", r.Shard, r.Err)
 			broken = true
 			continue
+		}
+		if r.Truncated {
+			truncated++
 		}
 		runs += r.Runs
 		rebuilds += r.Rebuilds
@@ -580,7 +620,10 @@ func main() {
 	}
 
 	evals, nontrivial, reached, accepted, deferred, same := 0, 0, 0, 0, 0, 0
-	exhaustive := *only == ""
+	exhaustive := *only == "" && truncated == 0
+	if truncated > 0 {
+		fmt.Fprintf(os.Stderr, "C15: internal deadline reached, %d worker parts stopped early: the enumeration is NOT complete (exhaustive=false)\n", truncated)
+	}
 	perRPC := map[string]any{}
 	var names []string
 	for k := range stats {
@@ -633,6 +676,7 @@ func main() {
 	rep.Set("deferred_parked_correctly_signed_vertex", deferred)
 	rep.Set("consistent_variants_identical_to_raw_not_offered_twice", same)
 	rep.Set("exhaustive", exhaustive)
+	rep.Set("worker_parts_stopped_by_internal_deadline", truncated)
 	rep.Set("per_rpc", perRPC)
 	rep.Set("entry_points", len(names))
 	rep.Set("world_states", []string{"S0: genesis only, no peer", "S1: genesis + 2 sealed transfers (R->A 6, R->B 3) + two awaiting contracts A->B proposed through Notary.Propose (one of them also moves 2^64-1 units, which A cannot afford) + peer N1 wired and in sync"})
